@@ -64,31 +64,9 @@ def errMsg (e : Err) (op : Op) : Option Bytes :=
 
 /-! ### `redis.WriteFloat`: `strconv.FormatFloat(f, 'f', -1, 64)` -/
 
-/-- decimal digits left-padded with `0` to at least `w` characters -/
-def padDigits (n w : Nat) : Bytes :=
-  let d := natDigits n
-  List.replicate (w - d.length) 48 ++ d
-
-def stripTrailingZeros (b : Bytes) : Bytes := (b.reverse.dropWhile (· == 48)).reverse
-
-/-- The shortest decimal that reads back as the same double, printed without exponent. For a
-dyadic value whose EXACT decimal expansion has at most 15 significant digits that expansion is the
-answer (two different decimals of ≤ 15 digits never share a double). Longer expansions: `none`. -/
-def formatDyadic (d : Dyadic) : Option Bytes :=
-  match d with
-  | .zero => some [48]
-  | .ofOdd n k _ =>
-    let sign : Bytes := if n < 0 then [45] else []
-    if k ≤ 0 then
-      let m := n.natAbs * 2 ^ (-k).toNat
-      let ds := natDigits m
-      if (stripTrailingZeros ds).length ≤ 15 then some (sign ++ ds) else none
-    else
-      let kk := k.toNat
-      let m := n.natAbs * 5 ^ kk                       -- value = m / 10^kk, m not divisible by 10
-      if (natDigits m).length ≤ 15 then
-        some (sign ++ natDigits (m / 10 ^ kk) ++ [46] ++ padDigits (m % 10 ^ kk) kk)
-      else none
+/-- `strconv.FormatFloat(f, 'f', -1, 64)` of a finite score: `Redka.formatFloatDec` (the shortest
+decimal that reads back as the same float64) -/
+def formatDyadic (d : Dyadic) : Option Bytes := formatFloatDec d
 
 def formatFloat : Score → Option Bytes
   | .posInf => some (asciiBytes "+Inf")
